@@ -25,14 +25,17 @@ def gen_tree(rng, max_depth=4, root=None, with_init=True, nonpy=True):
     files = {}
     # directory names that repeat or extend the root directory's own name (proj/proj, proj/proj_core)
     pool = POOL + [root, root + "_core", root + "x"]
-    for _ in range(rng.randint(1, 5)):
+    big = rng.random() < 0.1        # now and then a larger project: more directories and files, numbered names
+    if big:
+        pool = pool + ["m%d" % i for i in range(12)]
+    for _ in range(rng.randint(6, 14) if big else rng.randint(1, 5)):
         p = rng.choice(dirs)
         if len(p) < max_depth:
             d = p + (rng.choice(pool),)
             if d not in dirs and d not in files:
                 dirs.append(d)
     for d in dirs:
-        for _ in range(rng.randint(0, 3)):
+        for _ in range(rng.randint(0, 6) if big else rng.randint(0, 3)):
             f = d + (rng.choice(pool),)
             if f not in dirs and f not in files:
                 files[f] = {"py": True, "body": []}
